@@ -1,7 +1,11 @@
 //! mc-ark / mc-min: one source tree, two binaries (decaf377 with the arkworks+r1cs features, and
 //! decaf377 with --no-default-features), both built with --cfg decaf377_verif against /repo.
 mod bfs;
+mod c02;
+mod c07;
+mod c09;
 mod c10;
+mod c11;
 mod c17;
 mod core;
 mod explorer;
@@ -84,7 +88,26 @@ fn dispatch(ctx: &Arc<Ctx>) -> &'static str {
     match ctx.prop.as_str() {
         "C01" | "C03" | "C04" | "C05" | "C06" | "C08" => {
             explorer::run(ctx, explorer::Sel::from(&ctx.prop).unwrap());
+            if ctx.prop == "C01" {
+                c02::run(ctx, c02::Mode::C01b);
+            }
             "model_checking"
+        }
+        "C02" => {
+            c02::run(ctx, c02::Mode::C02);
+            "exploration"
+        }
+        "C07" => {
+            c07::run(ctx);
+            "exploration"
+        }
+        "C09" => {
+            c09::run(ctx);
+            "exploration"
+        }
+        "C11" => {
+            c11::run(ctx);
+            "exploration"
         }
         "C17" => {
             c17::run(ctx);
@@ -128,6 +151,22 @@ fn replay(doc: &Value) -> i32 {
                     (ok, Value::Array(trace))
                 }
                 e if e.starts_with("E3/C10") || e.starts_with("E1/C10") => match guarded(|| c10::replay(&doc["case"])) {
+                    Ok(r) => r,
+                    Err(m) => (false, Value::String(format!("panic: {m}"))),
+                },
+                e if e.starts_with("E3/C02") || e.starts_with("E3/C01b") => match guarded(|| c02::replay(&doc["case"], e)) {
+                    Ok(r) => r,
+                    Err(m) => (false, Value::String(format!("panic: {m}"))),
+                },
+                e if e.starts_with("E3/C07") => match guarded(|| c07::replay(&doc["case"])) {
+                    Ok(r) => r,
+                    Err(m) => (false, Value::String(format!("panic: {m}"))),
+                },
+                e if e.starts_with("E3/C09") => match guarded(|| c09::replay(&doc["case"])) {
+                    Ok(r) => r,
+                    Err(m) => (false, Value::String(format!("panic: {m}"))),
+                },
+                e if e.starts_with("E3/C11") => match guarded(|| c11::replay(&doc["case"])) {
                     Ok(r) => r,
                     Err(m) => (false, Value::String(format!("panic: {m}"))),
                 },
